@@ -161,8 +161,11 @@ class TypeValueHead(CborArray):
     def do_dissect_payload(self, s):
         # Extract the second item as the payload
         s = s[0]
-        if not s:
+        if not s or self.guess_payload_class(s) is CborItem:
+            # An item of unknown type is kept as it is,
+            # a byte string is not to be decoded as an encoded structure
             self.add_payload(CborItem(item=s))
+            return
         CborArray.do_dissect_payload(self, s)
 
     def default_payload_class(self, payload):
